@@ -16,9 +16,11 @@ package main
 // Anything that does not have the expected shape is a translation error (gen exits non-zero).
 
 import (
+	"bytes"
 	"fmt"
 	"go/ast"
 	"go/constant"
+	"go/printer"
 	"go/token"
 	"go/types"
 	"reflect"
@@ -55,8 +57,16 @@ func cfPairs(xs [][2]string) string {
 	return "[" + strings.Join(q, ", ") + "]"
 }
 
+// cfSrc prints a node from the syntax tree (so that identifiers renamed by configCanonLocals show), white space normalised
 func cfSrc(p *packages.Package, n ast.Node) string {
-	return strings.Join(strings.Fields(nodeString(p, n)), " ")
+	if n == nil || reflect.ValueOf(n).IsNil() {
+		return ""
+	}
+	var buf bytes.Buffer
+	if err := printer.Fprint(&buf, p.Fset, n); err != nil {
+		return strings.Join(strings.Fields(nodeString(p, n)), " ")
+	}
+	return strings.Join(strings.Fields(buf.String()), " ")
 }
 
 func cfBoolConst(p *packages.Package, e ast.Expr) (bool, bool) {
@@ -274,6 +284,7 @@ func configExtra(t *tr) string {
 	}
 	b.WriteString("/-- `coreimport.Import`: hooks appended to the chain, in order -/\ndef importHooks : List String := " + cfQ(importHooks) + "\n")
 	b.WriteString("/-- `coreimport.Import`: registered tag resolvers (tag type lower-cased as `RegisterTagResolver` does, resolver) -/\ndef tagResolvers : List (String × String) := " + cfPairs(resolvers) + "\n")
+	b.WriteString(configShortcuts(t, ip))
 	// resolver variables: what they are bound to
 	cu := load("github.com/yandex/pandora/lib/confutil")
 	var bindings [][2]string
@@ -460,6 +471,7 @@ func configExtra(t *tr) string {
 	// propertyTokenResolver: every return with a non-nil error, and the final return
 	var propErrs []string
 	finalIsErr := false
+	restoreProp := configCanonLocals(cu, findFunc(cu, "propertyTokenResolver"))
 	if pr := findFunc(cu, "propertyTokenResolver"); pr != nil {
 		ast.Inspect(pr.Body, func(n ast.Node) bool {
 			if r, ok := n.(*ast.ReturnStmt); ok && len(r.Results) == 2 {
@@ -510,11 +522,13 @@ func configExtra(t *tr) string {
 			return true
 		})
 	}
+	restoreProp()
 	b.WriteString(fmt.Sprintf("/-- `propertyTokenResolver`: how `file#key` is cut -/\ndef propertyCut : String := %q\n", propCut))
 	b.WriteString("/-- `propertyTokenResolver`: the scanner loop, statement by statement (`if c {` … `}` flattened) -/\ndef propertyLoop : List String := " + cfQ(propLoop) + "\n\n")
 
 	// ---- 5b. parseConf / fillConf (pluginconfig), DecodeAndValidate, the validator
 	var parseConds, fillStmts, fillReturns, hookCalls []string
+	restoreParse := configCanonLocals(pc, findFunc(pc, "parseConf"))
 	if pf := findFunc(pc, "parseConf"); pf != nil {
 		var closure *ast.FuncLit
 		ast.Inspect(pf.Body, func(n ast.Node) bool {
@@ -555,6 +569,7 @@ func configExtra(t *tr) string {
 	} else {
 		t.errs = append(t.errs, "pluginconfig.parseConf not found")
 	}
+	restoreParse()
 	for _, fn := range []string{"Hook", "FactoryHook"} {
 		if fd := findFunc(pc, fn); fd != nil {
 			ast.Inspect(fd.Body, func(n ast.Node) bool {
@@ -573,14 +588,18 @@ func configExtra(t *tr) string {
 	b.WriteString("/-- what `Hook` / `FactoryHook` return -/\ndef pluginHookCalls : List String := " + cfQ(hookCalls) + "\n")
 	var dvStmts []string
 	if dv := findFunc(p, "DecodeAndValidate"); dv != nil {
+		restore := configCanonLocals(p, dv)
 		configStmts(p, dv.Body.List, &dvStmts)
+		restore()
 	} else {
 		t.errs = append(t.errs, "config.DecodeAndValidate not found")
 	}
 	b.WriteString("/-- `config.DecodeAndValidate`, statement by statement -/\ndef decodeAndValidateStmts : List String := " + cfQ(dvStmts) + "\n")
 	var vStmts []string
 	if vf := findFunc(p, "Validate"); vf != nil {
+		restore := configCanonLocals(p, vf)
 		configStmts(p, vf.Body.List, &vStmts)
+		restore()
 	}
 	b.WriteString("/-- `config.Validate` -/\ndef validateStmts : List String := " + cfQ(vStmts) + "\n")
 	// the validator: tag name, registered validations
@@ -621,15 +640,8 @@ func configExtra(t *tr) string {
 		}
 	}
 	b.WriteString("/-- the validations core/config registers (tag, function) -/\ndef registeredValidations : List (String × String) := " + cfPairs(regs) + "\n")
-	var vrets [][2]string
-	for _, fn := range []string{"MinTimeValidation", "EndpointStringValidation"} {
-		if fd := findFunc(p, fn); fd != nil && len(fd.Body.List) > 0 {
-			if r, ok := fd.Body.List[len(fd.Body.List)-1].(*ast.ReturnStmt); ok && len(r.Results) == 1 {
-				vrets = append(vrets, [2]string{fn, cfSrc(p, r.Results[0])})
-			}
-		}
-	}
-	b.WriteString("/-- what the repo's own validations return -/\ndef validationReturns : List (String × String) := " + cfPairs(vrets) + "\n\n")
+	// the bodies of the repo's own validations as boolean functions of named atoms (area_config_bool.go)
+	b.WriteString("\n" + configValidationBodies(t, p))
 
 	// ---- 5c. every `validate:"…"` struct tag of the repository's non-test packages (examples / tests left out)
 	{
